@@ -58,6 +58,22 @@ CHECKS = {
              "interpreters are compared through the specification. Zero-width selectors and operands are in the box.",
         note="Trusted: TLC, the program renderer. A mismatch of the compiled circuit is reported by C01, of the "
              "testbench evaluator here."),
+    "C08": dict(
+        category="model_checking", design_ref="DESIGN.md section 4 (C08)",
+        technique="TLA+ kernel model AmSim (RunProc enabled for any ready process) model-checked over all schedules for a "
+                  "design family ranging over truth tables; TLC's unique observation sequence per (design, script) replayed "
+                  "on pysim under injected permutations of the ready-process and trigger sets, as RTL and as user processes",
+        text="TLC explores every order of running ready processes for every design of a family (two comb fragments, two "
+             "registers feeding each other, a clock generator; process functions range over truth tables) and several "
+             "testbench scripts of set/get/tick().sample/delay/elapsed-time operations, checking ScheduleIndependent, "
+             "SetReturnsSettled and NoTimeTravel on the model (a mutant reading queued values must fail). The observation "
+             "sequence TLC derives for each (design, script, clock period/phase) is then reproduced on the real simulator "
+             "unpermuted and under seeded permutations of the process/trigger iteration order, with the fragments as RTL "
+             "and replaced by user processes written as the simulator guide prescribes; values, tick samples and elapsed "
+             "femtoseconds must match exactly.",
+        note="Trusted: TLC; the permutation injection (engine._processes/_active_triggers replaced by a set subclass "
+             "with seeded iteration order); the script interpreter. Excluded as documented order-dependent: Print order "
+             "across fragments, spurious wake-up counts, user processes sharing Python state."),
     "C10": dict(
         category="model_checking", design_ref="DESIGN.md section 4 (C10)",
         technique="declarative TLA+ definitions (least width, congruence mod 2^w) enumerated by TLC over integer boxes "
